@@ -22,8 +22,9 @@ class Cell:
 
 
 class Eval:
-    def __init__(self, facts, max_steps=4000):
+    def __init__(self, facts, max_steps=4000, oracles=None):
         self.facts = facts
+        self.oracles = oracles or {}  # callee name -> value returned (an external query answered by the enumeration)
         self.steps = 0
         self.max_steps = max_steps
         self.variant_names = {}
@@ -112,6 +113,8 @@ class Eval:
         v = self.place(body, env, pl).v
         if v is None:
             raise Unsupported("read of uninitialised place")
+        if v[0] == "opaque":
+            return v
         return self.freeze(v)
 
     def freeze(self, v):
@@ -176,6 +179,8 @@ class Eval:
         args = [self.operand(body, env, a) for a in t["args"]]
         if cb is None:
             f = t.get("f") or {}
+            if f.get("name") in self.oracles:
+                return self.oracles[f.get("name")]
             if f.get("name") == "ne" and (f.get("trait") or "").endswith("PartialEq") and cs is not None and cs.self_ty is not None:
                 # the provided method: !self.eq(other), with the type's own (derived) eq
                 eqb = self.facts.body("<%s as PartialEq>::eq" % self.facts.short_ty(self.facts.peel_refs(cs.self_ty)))
